@@ -11,6 +11,11 @@ Sub-checks (all cases are plain data; DendroPy objects are built inside the func
   history  @given.  ONE tree object scored with a sequence of calls over 1-4 different matrices (different types,
            widths, gap treatment, weights; repeats; optional fitch_up_pass in between); every call must return what a
            freshly built copy of tree + matrix returns (and what the oracle says).
+  edits    @given.  ONE matrix object (and one tree object): score, then edit the matrix in place through the public
+           sequence API (set one or several cells incl. ambiguity/gap/missing, set_at, swap two rows, replace a row,
+           append a column to every row, delete a column from every row), score the SAME matrix object again on the
+           same tree and on a fresh tree; every score must equal the oracle on the edited data and the score of a
+           freshly built matrix + tree holding the same data.
   concat   @given.  Multi-alphabet route: 2-3 StandardCharacterMatrix partitions coded over DIFFERENT state alphabets
            (new_standard_state_alphabet("01"), ("012"), ("0123"), ("3210"), ("23"), ...) on one namespace, joined with
            StandardCharacterMatrix.concatenate (cells keep the state objects of their own alphabets).  The concatenated
@@ -40,6 +45,10 @@ CONFIG = {
              "distinct = (shape, rows, type, weights, gap flag).  history: non-trivial = some call whose expected score "
              "differs from the expected score of the preceding call on the same tree object; distinct = whole case.  "
              "final: non-trivial = some internal non-root node whose final set differs from its down-pass set.  "
+             "edits: one matrix object scored, edited in place (cells set / rows swapped or replaced / column "
+             "appended or deleted) and re-scored on the same and on a fresh tree over 2-5 steps; non-trivial = a "
+             "re-score after a shape-keeping edit, with a gap flag already used before, whose expected score differs "
+             "from the previous step's.  "
              "concat: 2-3 standard partitions over different alphabets (symbol sets 01, 012, 0123, 3210, 23, 10, "
              "0-9, ab, ba0) joined by StandardCharacterMatrix.concatenate; non-trivial = >= 2 distinct alphabets, a gap "
              "or missing symbol in columns of two different alphabets, and >= 1 change."),
@@ -564,6 +573,119 @@ def check_history(ctx, case):
 
 
 # ---------------------------------------------------------------------------
+# sub-check: one matrix object edited in place between calls
+# ---------------------------------------------------------------------------
+
+def apply_edit(mat, taxa, rows, e):
+    """Apply edit e to the DendroPy matrix and to the model `rows` (list of lists of symbols)."""
+    alpha = mat.default_state_alphabet
+    kind = e["kind"]
+    if kind == "set":
+        for r, c, sym in e["cells"]:
+            if e["via"] == "set_at":
+                mat[taxa[r]].set_at(c, alpha[sym])
+            else:
+                mat[taxa[r]][c] = alpha[sym]
+            rows[r][c] = sym
+    elif kind == "swap_rows":
+        a, b = e["a"], e["b"]
+        sa, sb = mat[taxa[a]], mat[taxa[b]]
+        mat[taxa[a]] = sb
+        mat[taxa[b]] = sa
+        rows[a], rows[b] = rows[b], rows[a]
+    elif kind == "replace_row":
+        mat[taxa[e["r"]]] = mat.coerce_values(e["row"])
+        rows[e["r"]] = list(e["row"])
+    elif kind == "append_col":
+        for r, sym in enumerate(e["col"]):
+            mat[taxa[r]].append(alpha[sym])
+            rows[r].append(sym)
+    elif kind == "drop_col":
+        for r in range(len(rows)):
+            del mat[taxa[r]][e["c"]]
+            del rows[r][e["c"]]
+    else:
+        raise runner.HarnessError("unknown edit %r" % (e,))
+
+
+def check_edits(ctx, case):
+    spec, rooting, m0, steps, wpool = case["spec"], case["rooting"], case["m"], case["steps"], case["wpool"]
+    dtype = m0["dtype"]
+    n = len(m0["rows"])
+    ns, taxa, _ = build_ns(n)
+    tree = build_tree(spec, ns, taxa, rooting)
+    rt = snap(ctx, tree, "edits base")
+    rdeg, ideg = degree_profile(rt)
+    if rdeg != (2 if rooting == "rooted" else 3) or (ideg - set([2])):
+        raise runner.HarnessError("generator produced a tree outside the domain: %r" % (case,))
+    mat = build_matrix(m0, ns, taxa)
+    rows = [list(r) for r in m0["rows"]]
+    tri = "" if rooting == "rooted" else "_trifurcating_seed"
+    log = []
+    scored_gams = set()
+    prev = None
+    interesting = False
+    for k, stp in enumerate(steps):
+        e = stp["edit"]
+        shape_kept = None
+        if e is not None:
+            apply_edit(mat, taxa, rows, e)
+            shape_kept = e["kind"] in ("set", "swap_rows", "replace_row")
+            ctx.cls("edits.edit:" + e["kind"])
+            got_syms = matrix_symbols(mat, taxa, n)
+            # compare by denoted state set: the matrix reports canonical symbols (x -> N, a -> A)
+            denote = lambda table: [[leaf_set(dtype, c, False) for c in r] for r in table]
+            ctx.check(denote(got_syms) == denote(rows), "the in-place edit is visible in the matrix",
+                      "C16.matrix_edit_applied",
+                      lambda: "after %r the matrix reads %r, expected %r" % (e, got_syms, rows))
+        cur = {"dtype": dtype, "rows": ["".join(r) for r in rows]}
+        gam_arg = stp["gam"]
+        gam = eff_gam(gam_arg)
+        width = len(rows[0])
+        weights = wpool[:width] if stp["use_weights"] else None
+        changes = [x[0] for x in expected_changes(rt, cur, gam)]
+        want_list = weighted(changes, weights)
+        want = sum(want_list)
+        fresh, flst = fresh_score(ctx, spec, rooting, cur, gam_arg, weights, stp["per_char"])
+        ctx.check(fresh == want and (flst is None or flst == want_list),
+                  "score of a freshly built tree + matrix equals the weighted minimum number of changes",
+                  "C16.score_minimal" + tri,
+                  lambda: "fresh copy gives %r %r, oracle %r %r; tree=%s rows=%r weights=%r gam=%r" % (
+                      fresh, flst, want, want_list, rt.canon(ordered=True), cur["rows"], weights, gam_arg))
+        results = []
+        for where in stp["trees"]:
+            t = tree if where == "same" else build_tree(spec, ns, taxa, rooting)
+            got, lst = call_score(t, mat, gam_arg, weights, stp["per_char"])
+            results.append((where, got, lst))
+        log.append({"step": k, "edit": e, "rows": cur["rows"], "gam": gam_arg, "weights": weights,
+                    "scores": results, "fresh": fresh, "oracle": want})
+        for where, got, lst in results:
+            ctx.check(got == fresh and lst == flst,
+                      "scoring a matrix object that was scored before and then edited in place equals scoring a "
+                      "freshly built matrix with the same data", "C16.matrix_edit_equals_fresh",
+                      lambda: "step %d (%s tree object): reused matrix object gives %r %r, fresh matrix + tree give "
+                              "%r %r; tree=%s history=%r" % (k, where, got, lst, fresh, flst, rt.canon(ordered=True),
+                                                             log))
+        if e is not None and prev is not None:
+            if shape_kept and gam in scored_gams:
+                ctx.cls("edits.rescored_after_shape_keeping_edit_same_gap_flag")
+                if prev != (want, want_list):
+                    ctx.cls("edits.shape_keeping_edit_changed_expected_score")
+                    interesting = True
+            elif not shape_kept:
+                ctx.cls("edits.rescored_after_shape_changing_edit")
+        elif e is None and k > 0:
+            ctx.cls("edits.rescored_without_edit")
+        scored_gams.add(gam)
+        prev = (want, want_list)
+    ctx.cls("edits.type:" + dtype)
+    ctx.cls("edits.steps:%d" % len(steps))
+    if interesting:
+        ctx.nontrivial(["edits", rt.canon(ordered=True), m0, steps, wpool])
+    ctx.sample("edits", case)
+
+
+# ---------------------------------------------------------------------------
 # sub-check: matrices mixing state alphabets (concatenate)
 # ---------------------------------------------------------------------------
 
@@ -696,7 +818,8 @@ def check_final(ctx, case):
     ctx.sample("final", case)
 
 
-SUBCHECKS = {"score": check_score, "history": check_history, "final": check_final, "concat": check_concat}
+SUBCHECKS = {"score": check_score, "history": check_history, "final": check_final, "concat": check_concat,
+             "edits": check_edits}
 
 
 # ---------------------------------------------------------------------------
@@ -791,6 +914,52 @@ def history_cases(draw, max_leaves, max_chars):
 
 
 @st.composite
+def edit_cases(draw, max_leaves, max_chars):
+    spec, rooting, n = draw(trees(max_leaves))
+    m = draw(matrices(n, max_chars))
+    T = TYPES[m["dtype"]]
+    sym = st.one_of(st.sampled_from(T["fundsyms"]), st.sampled_from(T["all"]))
+    width = len(m["rows"][0])
+    base_gam = m["gam"]
+    other_gam = False if eff_gam(base_gam) else True
+    nsteps = draw(st.integers(2, 5))
+    steps = []
+    for k in range(nsteps):
+        edit = None
+        if k > 0 and draw(st.integers(0, 5)) > 0:
+            kind = draw(st.sampled_from(["set", "set", "set", "set", "swap_rows", "replace_row", "append_col",
+                                         "drop_col"]))
+            if kind == "drop_col" and width == 1:
+                kind = "set"
+            if kind == "set":
+                cells = draw(st.lists(st.tuples(st.integers(0, n - 1), st.integers(0, width - 1), sym),
+                                      min_size=1, max_size=3))
+                edit = {"kind": "set", "cells": [list(c) for c in cells],
+                        "via": draw(st.sampled_from(["setitem", "set_at"]))}
+            elif kind == "swap_rows":
+                a = draw(st.integers(0, n - 1))
+                b = draw(st.integers(0, n - 2))
+                edit = {"kind": "swap_rows", "a": a, "b": b if b < a else b + 1}
+            elif kind == "replace_row":
+                edit = {"kind": "replace_row", "r": draw(st.integers(0, n - 1)),
+                        "row": "".join(draw(st.lists(sym, min_size=width, max_size=width)))}
+            elif kind == "append_col":
+                edit = {"kind": "append_col", "col": draw(st.lists(sym, min_size=n, max_size=n))}
+                width += 1
+            else:
+                edit = {"kind": "drop_col", "c": draw(st.integers(0, width - 1))}
+                width -= 1
+        steps.append({"edit": edit,
+                      "gam": draw(st.sampled_from([base_gam, base_gam, base_gam, other_gam])),
+                      "use_weights": draw(st.booleans()),
+                      "per_char": draw(st.booleans()),
+                      "trees": draw(st.sampled_from([["same"], ["fresh"], ["same", "fresh"], ["fresh", "same"]]))})
+    wpool = draw(st.lists(st.integers(0, 5), min_size=max_chars + 6, max_size=max_chars + 6))
+    return {"spec": spec, "rooting": rooting, "m": {"dtype": m["dtype"], "rows": m["rows"]}, "steps": steps,
+            "wpool": wpool}
+
+
+@st.composite
 def concat_cases(draw, max_leaves, max_chars):
     spec, rooting, n = draw(trees(max_leaves))
     k = draw(st.integers(2, 3))
@@ -822,7 +991,9 @@ def run(ctx):
     n_hist = 1200 if quick else 10000
     n_final = 600 if quick else 6000
     n_concat = 1000 if quick else 8000
+    n_edits = 1200 if quick else 10000
     runner.run_given(ctx, "score", score_cases(max_leaves, max_chars), check_score, n_score // ctx.nshards)
     runner.run_given(ctx, "history", history_cases(max_leaves, max_chars), check_history, n_hist // ctx.nshards)
     runner.run_given(ctx, "final", final_cases(max_leaves, max_chars), check_final, n_final // ctx.nshards)
     runner.run_given(ctx, "concat", concat_cases(max_leaves, max_chars), check_concat, n_concat // ctx.nshards)
+    runner.run_given(ctx, "edits", edit_cases(max_leaves, max_chars), check_edits, n_edits // ctx.nshards)
